@@ -116,6 +116,7 @@ class IndexableArray(RaggedBase):
         row, col = (np.asanyarray(v) for v in (row, col))
         if self._safe_mode and (
             np.any(row >= self._shape.n_rows) or np.any(col >= self._shape.lengths[row])
+            or np.any(col < -self._shape.lengths[row])
         ):
             raise IndexError(
                 f"Index ({row}, {col}) out of bounds for array with shape {self._shape}"
